@@ -182,8 +182,9 @@ func TestVerifC09(t *testing.T) {
 		w := NewWorld(o)
 		F := w.NewReplica(w.God, dbm.NewMemDB())
 		F.Name, F.Observer = "follower", true
-		if err := w.Prologue(); err != nil {
-			t.Fatal(err)
+		if !startScenario(w, rep, false) {
+			w.Cleanup()
+			continue
 		}
 		s := NewScenario(w, verifutil.NewRng(seed, 9))
 		s.Hostile, s.MaxTxs = 10, 5
